@@ -1009,6 +1009,17 @@ func isErrorExit(b *ssa.BasicBlock) bool {
 				return false
 			}
 			ev := ret.Results[len(ret.Results)-1]
+			// a named result (the function has deferred calls): the value returned is what this block last stored
+			// into the result's cell
+			if ld, ok := ev.(*ssa.UnOp); ok && ld.Op == token.MUL {
+				if cell, ok := ld.X.(*ssa.Alloc); ok {
+					for _, in := range b.Instrs {
+						if st, ok := in.(*ssa.Store); ok && st.Addr == ssa.Value(cell) {
+							ev = st.Val
+						}
+					}
+				}
+			}
 			if call, ok := ev.(*ssa.Call); ok {
 				if f := call.Call.StaticCallee(); f != nil {
 					switch f.String() {
